@@ -26,6 +26,9 @@ CHECKS = {
  "C11": dict(category="exploration", technique="Hypothesis-generated collections with special-character qualifiers: exported text re-read by an independent GFF3 reader (percent-decoding) and by BioCantor's own parsers, then re-exported (round trip / fixpoint)",
    text="Syntax leg: header, 9 columns, 1-based inclusive coordinates equal to the source blocks (chromosome or chunk-relative), strand symbols, phase only on CDS and equal to the frame-derived phase, unique IDs, Parent defined on an earlier line and of the right type, rows ordered by start, reserved keys never emitted from qualifiers, every key/value decoding back to the source text, FASTA section equal to the sequence. Re-parse leg: exons, CDS blocks, frames, strand, ids, symbols, locus tag, biotypes, protein id, product, qualifiers per gene; re-export equals the file up to digest-valued IDs and is a fixpoint. Attribute leg: 2500+ escaping cases.",
    note="Re-parse excludes comma/double quote (gffutils limits). Known finding F24 (duplicate CDS row IDs for isoforms sharing a CDS; pinned by repository GFF3 fixtures).", ref="DESIGN.md §5 C11"),
+ "C12": dict(category="exploration", technique="Hypothesis-generated single-strand gene models written in both GenBank flavours, read back by Biopython (independent reader) and by BioCantor's three parser modes (differential)",
+   text="Per flavour: record sequence; for every gene/transcript/CDS/feature a record of the documented type with exactly the source blocks and strand, the source identifiers in its qualifiers, /codon_start = start frame + 1, /translation (on request only) equal to an independent codon-table translation; parse_genbank in sorted, locus-tag and hybrid mode recovers structure (exons in eukaryotic, CDS in prokaryotic flavour), strand, frames, symbols, locus tags, ids, protein ids, and the three modes return equal collections.",
+   note="Through the Biopython compat shim. One transcript per gene; CDS with a single reading frame (GenBank cannot carry frameshifts).", ref="DESIGN.md §5 C12"),
  "C14": dict(category="exploration", technique="Hypothesis-generated transcripts/features x chunk windows x export modes; the exported text is re-read by an independent 12-column BED reader and decoded back to blocks",
    text="BED12 format invariants (block count, first start 0, ascending non-overlapping blocks, last block reaches end, thick range inside) and exact decoding to the exported blocks, span, strand, name, score, RGB and CDS bounds in chromosome and chunk-relative coordinates.",
    note="Chunk windows contain the interval; thickStart=thickEnd=0 accepted for non-coding records (documented convention).", ref="DESIGN.md §5 C14"),
